@@ -210,6 +210,25 @@ def generate(run_seed, mode='seq'):
     dtype_mode = rng.choice([None, None, None, 'f64', 'f32', 'i64', 'i32', 'pyint', 'arr0d',
                              'longdouble', 'f16'])
     tasks = []
+    if mode == 'seq' and rng.random() < 0.04:
+        # one or two LONG EpsAlg histories (105..125 terms of a stream whose high-order table entries
+        # stay well defined), compared with the exact table all the way; a Dea runs alongside
+        ops = []
+        for j in range(rng.randint(1, 2)):
+            n = rng.randint(105, 125)
+            fam = rng.choice(['random', 'random', 'series'])
+            terms, meta = FAMILIES[fam](rng, n)
+            meta['deep'] = True
+            ops.append({'op': 'spawn', 'i': 't0.e%d' % j, 'terms': terms, 'meta': meta, 'np': None,
+                        'cls': 'EpsAlg'})
+        terms, meta = make_stream(rng, 120, fams)
+        ops.append({'op': 'spawn', 'i': 't0.d0', 'terms': terms, 'meta': meta, 'np': None, 'cls': 'Dea',
+                    'limexp': rng.randint(3, 60)})
+        names = [o['i'] for o in ops]
+        for k in range(125):
+            for nm in names:
+                ops.append({'op': 'feed', 'i': nm})
+        return {'property': ID, 'mode': mode, 'tasks': [{'ops': ops}], 'trace': False, 'deep_epsalg': True}
     if mode == 'seq' and rng.random() < 0.08:
         # many short-lived instances: anything that depends on how many accelerators were ever
         # created in the process (counters, pools, registries) shows up here.  A handful of
@@ -459,6 +478,8 @@ class ExactTable(object):
     def __init__(self):
         self.T = {}      # (k, j) -> Fraction
         self.W = {}      # (k, j) -> float (same recurrence evaluated in doubles)
+        self.W2 = {}     # (k, j) -> float, differently rounded formula (below*d + 1)/d
+        self.W3 = {}     # (k, j) -> float, formula of W on terms moved by one ulp (alternating)
         self.E = {}      # (k, j) -> first-order bound on the rounding error of ANY reasonable double
         #                  evaluation of the entry (a few ulps per operation, propagated)
         self.n = -1
@@ -472,10 +493,12 @@ class ExactTable(object):
         n = self.n
         if not self.defined:
             return None
-        T, W, E = self.T, self.W, self.E
+        T, W, E, W2, W3 = self.T, self.W, self.E, self.W2, self.W3
         u = 8.0 * EPS
         T[(0, n)] = Fraction(s)
         W[(0, n)] = float(s)
+        W2[(0, n)] = float(s)
+        W3[(0, n)] = math.nextafter(float(s), math.inf if n % 2 else -math.inf)
         E[(0, n)] = 0.0
         for k in range(1, n + 1):
             j = n - k
@@ -494,6 +517,12 @@ class ExactTable(object):
             wbelow = W[(k - 2, j + 1)] if k >= 2 else 0.0
             T[(k, j)] = below + 1 / d
             W[(k, j)] = wbelow + 1.0 / wd
+            d2 = W2[(k - 1, j + 1)] - W2[(k - 1, j)]
+            b2 = W2[(k - 2, j + 1)] if k >= 2 else 0.0
+            W2[(k, j)] = (b2 * d2 + 1.0) / d2 if d2 != 0.0 else float('inf')
+            d3 = W3[(k - 1, j + 1)] - W3[(k - 1, j)]
+            b3 = W3[(k - 2, j + 1)] if k >= 2 else 0.0
+            W3[(k, j)] = b3 + 1.0 / d3 if d3 != 0.0 else float('inf')
             fd = abs(float(d))
             finv = 1.0 / fd if fd > 0.0 else float('inf')
             e_d = E[(k - 1, j + 1)] + E[(k - 1, j)] + u * fd
@@ -501,6 +530,7 @@ class ExactTable(object):
             E[(k, j)] = e_below + e_d * finv * finv + u * (abs(float(below)) + finv)
         k = 2 * (n // 2)
         self.last_bound = E[(k, n - k)]
+        self.last_alt = (W2[(k, n - k)], W3[(k, n - k)])
         return T[(k, n - k)], W[(k, n - k)]
 
 
@@ -511,13 +541,15 @@ def _unbits(b):
 MAX_EXACT_TERMS = {'quick': 60, 'thorough': 120}
 
 
-def check_epsalg(terms, recs):
+def check_epsalg(terms, recs, deep=False):
     """Returns (violation detail or None, counters)."""
     import os
     cnt = {'eps_checked': 0, 'eps_skipped_margin': 0, 'eps_skipped_cond': 0, 'eps_checked_beyond_25': 0,
            'max_eps_checked_k': 0}
     tab = ExactTable()
     cap = MAX_EXACT_TERMS.get(os.environ.get('VERIF_TIER_EFFECTIVE', 'quick'), 60)
+    if deep:
+        cap = max(cap, 130)
     for k, rec in enumerate(recs):
         if k >= cap:
             break
@@ -533,16 +565,21 @@ def check_epsalg(terms, recs):
         got = _unbits(rec[1])
         ex = float(exact)
         scale = max(abs(ex), 5e-324)
-        werr = abs(Fraction(w) - exact)
+        # conditioning is MEASURED on three double evaluations of the entry: the plain recurrence,
+        # a differently rounded formula, and the plain recurrence on terms moved by one ulp
+        devs = [float(abs(Fraction(w) - exact))]
+        for alt in tab.last_alt:
+            devs.append(float(abs(Fraction(alt) - exact)) if math.isfinite(alt) else float('inf'))
+        werr = max(devs)
         bound = tab.last_bound
-        if float(werr) > 1e-6 * scale:
-            cnt['eps_skipped_cond'] += 1
+        if not werr <= 4e-4 * scale:
+            cnt['eps_skipped_cond'] += 1          # tolerance would exceed 2 %: undiscriminating
             continue
-        if not bound <= 1e-6 * scale:
-            cnt['eps_checked_weakly'] = cnt.get('eps_checked_weakly', 0) + 1   # only gross slips show
-        # tolerance: what a correct double evaluation may be off by - measured on the witness,
-        # and bounded a priori so that a differently rounded (but correct) formula is accepted too
-        tol = max(1e3 * float(werr), 64 * EPS * scale, 8.0 * bound)
+        if werr > 2e-8 * scale:
+            cnt['eps_checked_weakly'] = cnt.get('eps_checked_weakly', 0) + 1   # tolerance above 1e-6
+        # tolerance: 50 x the largest deviation among the witnesses, never below 64 ulps; the
+        # a-priori first-order bound (hopelessly pessimistic deep down) may add at most 1e-6 relative
+        tol = max(50.0 * werr, 64 * EPS * scale, min(8.0 * bound, 1e-6 * scale))
         cnt['eps_checked'] += 1
         if k >= 25:
             cnt['eps_checked_beyond_25'] += 1
@@ -693,7 +730,7 @@ def judge(plan, result, refs):
             if cls == 'EpsAlg' and sp.get('np') in ('f32', 'f16', 'longdouble'):
                 detail, cnt = None, {}   # arithmetic not in doubles (the witness is): isolation only
             elif cls == 'EpsAlg':
-                detail, cnt = check_epsalg(terms, recs)
+                detail, cnt = check_epsalg(terms, recs, deep=bool(sp['meta'].get('deep')))
             else:
                 detail, cnt = check_dea(terms, recs, extra, limexp)
             for kk, vv in cnt.items():
